@@ -32,6 +32,9 @@ pub enum PgOp {
     PushPop(u8, u8),
     /// `.break` before the next instruction
     Break,
+    /// the "get PC" idiom: a call whose target is the very next address
+    /// (0: `jsr L` / `L:`, 1: `lea r3 L; jsrr r3` / `L:`, 2: `call L` / `L: pop r3` with the stack feature)
+    GetPc(u8),
 }
 
 #[derive(Clone, Copy, Debug, Serialize, Deserialize, PartialEq, Eq, Hash)]
@@ -83,6 +86,7 @@ pub fn pg_op() -> impl Strategy<Value = PgOp> {
         1 => (0u8..4, 0u8..4, -16i8..16).prop_map(|(d, s, i)| PgOp::SelfMod(d, s, i)),
         1 => (0u8..4, 0u8..4).prop_map(|(a, b)| PgOp::PushPop(a, b)),
         1 => Just(PgOp::Break),
+        1 => (0u8..3).prop_map(PgOp::GetPc),
     ]
 }
 
@@ -298,6 +302,30 @@ fn emit_ops(b: &mut B, ops: &[PgOp], spec: &ProgSpec, level: usize, nsubs: usize
                 }
             }
             PgOp::Break => b.brk = true,
+            PgOp::GetPc(k) => {
+                // only where R7 is free: main, or a subroutine in the JSR convention (which has saved R7)
+                let r7_free = level == 0 || !(spec.sub_call.get(level - 1).copied().unwrap_or(false) && spec.stack);
+                let l = b.fresh("GP");
+                match k % 3 {
+                    0 if r7_free => {
+                        b.emit(Stmt::new(Op::Jsr, &[], lbl(&l)));
+                        b.label(l);
+                        b.emit(Stmt::new(Op::Add, &[3, 7], imm(0)));
+                    }
+                    1 if r7_free => {
+                        b.emit(Stmt::new(Op::Lea, &[3], lbl(&l)));
+                        b.emit(Stmt::new(Op::Jsrr, &[3], Operand::None));
+                        b.label(l);
+                        b.emit(Stmt::new(Op::Add, &[3, 7], imm(0)));
+                    }
+                    2 if spec.stack && !r7_free || (spec.stack && level == 0) => {
+                        b.emit(Stmt::new(Op::Call, &[], lbl(&l)));
+                        b.label(l);
+                        b.emit(Stmt::new(Op::Pop, &[3], Operand::None));
+                    }
+                    _ => {}
+                }
+            }
         }
         // close skips whose span is over
         let mut k = 0;
